@@ -100,12 +100,21 @@ func VerifC13Validate() {
 	if v1 {
 		hdr.AclPayload = acl.Payload
 		hdr.SettingPayload = settings.RawChange
-		if rt.Choose(2) == 1 {
+		// the embedded roots: these ones, other bytes, or none at all (a header that embeds nothing binds nothing)
+		switch rt.Choose(3) {
+		case 1:
 			hdr.AclPayload = []byte("otheracl")
 			hdrAclMatches = false
+		case 2:
+			hdr.AclPayload = nil
+			hdrAclMatches = false
 		}
-		if rt.Choose(2) == 1 {
+		switch rt.Choose(3) {
+		case 1:
 			hdr.SettingPayload = []byte("otherset")
+			hdrSetMatches = false
+		case 2:
+			hdr.SettingPayload = nil
 			hdrSetMatches = false
 		}
 	}
